@@ -443,26 +443,19 @@ def rule_abort_stops(ck, rf, hm, loop, consts):
         except q.NotFoldable:
             stop = False
         ck.ob(R, loop, w.test, stop, "the receive loop stops reading frames once client_terminated is set")
-    # nothing after an abort in the parser
+    # nothing after an abort in the parser (path-sensitive: decided on the explored states, not on graph reachability)
     cfg = rf.cfg
-    n_ab = 0
-    for node, c in cfg.find(lambda x: q.is_call(x, "self._abort")):
-        n_ab += 1
-        ok = True
-        stack = [s for s, k in cfg.succ[node.id] if k != "exc"]
-        seen_ids = set()
-        while stack:
-            nid = stack.pop()
-            if nid in seen_ids:
-                continue
-            seen_ids.add(nid)
-            m = cfg.nodes[nid]
-            if m.kind in ("stmt", "test") and (X.calls_in_node(m, "self._handle_message", "self._read_bytes") or (m.kind == "stmt" and isinstance(m.ast, ast.stmt) and any((p[:-2] if p.endswith("[]") else p) in X.MSG_STATE for p in q.assigned_paths(m.ast)))):
-                ok = False
-                break
-            for sid, kind in cfg.succ[nid]:
-                stack.append(sid)
-        ck.ob(R, rf, c, ok, "after self._abort() the frame parser returns: no read, no dispatch, no state write follows on any path")
+    n_ab = len(cfg.find(lambda x: q.is_call(x, "self._abort")))
+    seen = X.run_frame(rf, consts)
+    sinks = []
+    for m in cfg.stmt_nodes(lambda m: m.kind in ("stmt", "test")):
+        if X.calls_in_node(m, "self._handle_message", "self._read_bytes") or (m.kind == "stmt" and isinstance(m.ast, ast.stmt) and any((p_[:-2] if p_.endswith("[]") else p_) in X.MSG_STATE for p_ in q.assigned_paths(m.ast))) \
+                or any(isinstance(c_.func, ast.Attribute) and q.dotted(c_.func.value) in X.MSG_STATE for c_ in X.node_calls_all(m)):
+            sinks.append(m)
+    ck.floor(R, len(sinks), 4, "reads / dispatches / state writes in _receive_frame")
+    for m in sinks:
+        after_abort = [u for _e, u in X.frame_states(seen, m) if u.aborted]
+        ck.ob(R, rf, m.ast, not after_abort, "no path on which self._abort() was called reaches this read / dispatch / state write (after an abort the parser just returns)")
     ck.floor(R, n_ab, 5, "_abort() sites in _receive_frame")
     # application callback errors abort
     rc = ck.func(W, "WebSocketProtocol._run_callback")
@@ -606,7 +599,8 @@ MUTANTS = [
     ("reserved-bits abort removed", _in(P13 + "._receive_frame", _drop_abort_block(lambda t: t == "reserved_bits")), "C15.abort-table"),
     ("RSV1 not part of the reserved mask", lambda repo: mutate(repo, W, P13, replace_stmt(lambda st: isinstance(st, ast.Assign) and _src(st).startswith("RSV_MASK ="), lambda st: [parse_stmt("RSV_MASK = RSV2 | RSV3")])), "C15.abort-table"),
     ("control frame with length code 126 accepted (>= 126 -> > 126)", _in(P13 + "._receive_frame", replace_expr(lambda n: isinstance(n, ast.Compare) and _src(n) == "payloadlen >= 126", lambda n: parse_expr("payloadlen > 126"))), "C15.abort-table"),
-    ("fragmented control frame: return after abort dropped", _in(P13 + "._receive_frame", _drop_return_after_abort(lambda t: t == "not is_final_frame")), ("C15.abort-table", "C15.abort-stops")),
+    # (the former mutant "fragmented control frame: return after abort dropped" is behaviour-preserving: the only statement that follows
+    #  is `if is_final_frame:` which is false on that path - the path-sensitive abort-stops rule rightly stays silent)
     ("continuation without start not aborted", _in(P13 + "._receive_frame", _drop_abort_block(lambda t: t == "self._fragmented_message_buffer is None")), "C15.abort-table"),
     ("new data frame inside a fragmented message not aborted", _in(P13 + "._receive_frame", _drop_abort_block(lambda t: t == "self._fragmented_message_buffer is not None" )), "C15.abort-table"),
     ("unknown opcode ignored instead of aborting", _in(P13 + "._handle_message", replace_stmt(lambda st: isinstance(st, ast.Expr) and _src(st) == "self._abort()" , lambda st: [ast.Pass()], limit=99)), None),
